@@ -3,6 +3,7 @@
 `toIdents` and the first two branches).
 -/
 import DsdVerif.Lemmas.PyDomainEqIdent3
+import DsdVerif.Lemmas.PyDomainEqIdent3b
 
 namespace Dsd.PyDomain3
 open Dsd Dsd.Gen Dsd.PyDomainEq
@@ -17,6 +18,17 @@ theorem py_identifiers_unstarred_length (request : Py.Dom.Req → Py.Dom.M Nat) 
         (toIdents (DomFull.identifiers nested cfg r { name := some n, length := some l, prefix_ := pfx }).2, s') :=
   identifiers_unstarred_length request nested tmp hrel s r h cfg n hne hst l pfx
 
+/-- (c), branch `if length is None and name[-1] == '*'`: a starred name without a length inherits the length of its live partner
+    through the nested request (`newargs = {'length': length}`), or gets no canonical form when that request is refused -/
+theorem py_identifiers_starred_nolength (request : Py.Dom.Req → Py.Dom.M Nat) (nested : Reg DKey → DomReq → Reg DKey × Out) (tmp : Nat)
+    (hrel : Related request nested tmp) (s : Py.Dom.Cls) (r : Reg DKey) (h : RepX s r) (cfg : DomCfg)
+    (n : String) (hne : n ≠ "") (hst : isStarred n = true) (pfx : Option String) :
+    ∃ s', RepX s' (DomFull.identifiers nested cfg r { name := some n, prefix_ := pfx }).1 ∧
+      (py_DomainS_identifiers request tmp cfg.cutoff cfg.shortLen cfg.longLen cfg.prefix_ (some n) none pfx none).exec s =
+        (toIdents (DomFull.identifiers nested cfg r { name := some n, prefix_ := pfx }).2, s') :=
+  identifiers_starred_nolength request nested tmp hrel s r h cfg n hne hst pfx
+
 #print axioms py_identifiers_unstarred_length
+#print axioms py_identifiers_starred_nolength
 
 end Dsd.PyDomain3
